@@ -156,14 +156,320 @@ Proof.
   - intros [= <- <-]. eapply good_set_body; eauto. simpl. tauto.
   - destruct (is_outpoint h l0) eqn:IO; [|unch W]. intros [= <- <-]. eapply good_set_body; eauto.
     intros r [<-|[]]. split; [now apply is_outpoint_lt|]. left. simpl. auto.
-  - intros [= <- <-]. eapply good_set_body; eauto. simpl. intros r [<-|[]]. split; [apply OR; simpl; auto|auto].
-  - intros [= <- <-]. eapply good_set_body; eauto. simpl. intros r [<-|[]]. split; [apply OR; simpl; auto|auto].
+  - intros [= <- <-]. eapply good_set_body; eauto. simpl. intros r [<-|[]]. split; [apply OR; simpl; auto|right; rewrite B; simpl; auto].
+  - intros [= <- <-]. eapply good_set_body; eauto. simpl. intros r [<-|[]]. split; [apply OR; simpl; auto|right; rewrite B; simpl; auto].
   - intros [= <- <-]. eapply good_set_body; eauto. simpl. tauto.
   - intros [= <- <-]. eapply good_set_body; eauto. simpl. tauto.
-  - intros [= <- <-]. eapply good_set_body; eauto. intros r Hr. split; [apply OR; exact Hr|right; exact Hr].
-  - intros [= <- <-]. rewrite snd_alloc. apply (good_new_list h _ l o version vin vout wit lock true); auto.
-  - intros [= <- <-]. rewrite snd_alloc. apply (good_new_list h _ l o version vin vout wit lock false); auto.
-  - intros [= <- <-]. eapply good_set_body; eauto. intros r Hr. split; [apply OR; exact Hr|right; exact Hr].
-  - intros [= <- <-]. eapply good_set_body; eauto. intros r Hr. split; [apply OR; exact Hr|right; exact Hr].
+  - intros [= <- <-]. eapply good_set_body; eauto. intros r Hr. split; [apply OR; exact Hr|right; rewrite B; exact Hr].
+  - intros [= <- <-]. rewrite ?snd_alloc. apply (good_new_list h _ l o version vin vout wit lock true); auto.
+  - intros [= <- <-]. rewrite ?snd_alloc. apply (good_new_list h _ l o version vin vout wit lock false); auto.
+  - intros [= <- <-]. eapply good_set_body; eauto. intros r Hr. split; [apply OR; exact Hr|right; rewrite B; exact Hr].
+  - intros [= <- <-]. eapply good_set_body; eauto. intros r Hr. split; [apply OR; exact Hr|right; rewrite B; exact Hr].
+Qed.
+
+Lemma del_attr_good h l f h' ob : wf h -> del_attr h l f = (h', ob) -> good h (ODelAttr l f) h'.
+Proof.
+  intros W. unfold del_attr. destruct (get h l) as [o|]; [|unch W].
+  destruct (o_body o); try (unch W); (destruct (negb (o_mut o)); [unch W|]); (destruct (negb (has_field _ f)); unch W).
+Qed.
+
+Lemma list_set_in {A} (l : list A) k x r : In r (list_set l k x) -> r = x \/ In r l.
+Proof.
+  revert k. induction l as [|a t IH]; intros k; simpl; [tauto|]. destruct k; simpl.
+  - intros [<-|Hr]; auto.
+  - intros [<-|Hr]; auto. apply IH in Hr. tauto.
+Qed.
+Lemma list_del_in {A} (l : list A) k r : In r (list_del l k) -> In r l.
+Proof.
+  revert k. induction l as [|a t IH]; intros k; simpl; [tauto|]. destruct k; simpl; [auto|].
+  intros [<-|Hr]; auto. apply IH in Hr. tauto.
+Qed.
+Lemma item_ok_lt h out x : wf h -> item_ok h out x = true -> (x < h_next h)%nat.
+Proof.
+  intros W. unfold item_ok, is_txout, is_txin. destruct out; destruct (body_at h x) as [b|] eqn:E; try discriminate;
+    intros _; eapply body_at_lt; eauto.
+Qed.
+
+Lemma list_op_good h o t out exn k h' ob : wf h ->
+  (forall w, wt h o w <-> exists b, body_at h t = Some b /\ tx_seq b out = Some (SList w)) ->
+  (forall items items' r, k items = Ok items' -> In r items' -> In r items \/ (In r (mentions o) /\ (r < h_next h)%nat)) ->
+  list_op h t out exn k = (h', ob) -> good h o h'.
+Proof.
+  intros W Wt K. unfold list_op. destruct (body_at h t) as [b|] eqn:B; [|unch W].
+  destruct (tx_seq b out) as [[ls|ll]|] eqn:S; try (unch W).
+  destruct (body_at h ll) as [[| | | |items]|] eqn:Bl0; try (unch W).
+  assert (exists lo, get h ll = Some lo /\ o_body lo = BList items) as (lo & El & Bl).
+  { unfold body_at in Bl0. destruct (get h ll) as [lo|]; [|discriminate]. injection Bl0 as Bl0. eauto. }
+  destruct (k items) as [items'|] eqn:Ek; [|unch W]. intros [= <- <-].
+  eapply good_set_body; eauto.
+  - eapply wf_list; eauto.
+  - intros r Hr. simpl in Hr. destruct (K items items' r Ek Hr) as [Hi|(Hm & L)]; [|auto]. split.
+    + apply (wf_refs ser H pyh h W ll lo r El). now rewrite Bl.
+    + right. now rewrite Bl.
+  - intros w. rewrite Wt. split.
+    + intros (b' & B' & S'). injection B' as <-. rewrite S in S'. now injection S' as <-.
+    + intros ->. eauto.
+Qed.
+
+Lemma ret_loc_good mut h o r h' ob : wf h -> (forall l, ~ wt h o l) ->
+  (forall h1 y, r = Ok (h1, y) -> made ser H pyh mut (h_next h) h h1 y) ->
+  ret_loc h r = (h', ob) -> good h o h'.
+Proof.
+  intros W NW MD. unfold ret_loc. destruct r as [[h1 y]|e]; [|unch W]. simpl. intros [= <- <-].
+  eapply good_made; eauto.
+Qed.
+
+Lemma get_hash_good h l h' ob : wf h -> get_hash_step ser H h l = (h', ob) -> good h (OGetHash l) h'.
+Proof.
+  intros W. unfold get_hash_step. destruct (get h l) as [o|] eqn:E; [|unch W].
+  destruct (o_mut o); [unch W|]. destruct (o_ghash o); [unch W|].
+  destruct (on_abs h l (v_hash ser H)) as [g|] eqn:V; [|unch W]. intros [= <- <-].
+  apply good_same_cores; auto; [now apply set_ghash_wf|apply set_ghash_cores].
+Qed.
+Lemma py_hash_good h l h' ob : wf h -> py_hash_step ser pyh h l = (h', ob) -> good h (OPyHash l) h'.
+Proof.
+  intros W. unfold py_hash_step. destruct (get h l) as [o|] eqn:E; [|unch W].
+  destruct (o_mut o); [unch W|]. destruct (o_phash o); [unch W|].
+  destruct (on_abs h l (v_pyhash ser pyh)) as [g|] eqn:V; [|unch W]. intros [= <- <-].
+  apply good_same_cores; auto; [now apply set_phash_wf|apply set_phash_cores].
+Qed.
+
+(* ---------- RawSignatureHash: everything it writes is part of its private copy ---------- *)
+Section Sep.
+Variable n : nat.          (* allocation pointer when the call started *)
+Variables h0 h1 : heap.    (* the caller's heap; the heap after CMutableTransaction.from_tx *)
+
+Record sep (hc : heap) : Prop := {
+  sep_wf : wf hc;
+  sep_n1 : (n <= h_next h1)%nat;
+  sep_n2 : (h_next h1 <= h_next hc)%nat;
+  sep_old : forall l, (l < n)%nat -> get hc l = get h0 l;
+  sep_fresh : fresh_refs n hc;
+  sep_mut : forall l m, mut_at h1 l = Some m -> mut_at hc l = Some m }.
+Definition tgt (x : loc) : Prop := (n <= x)%nat /\ mut_at h1 x = Some true.
+Definition frs (hc : heap) (r : loc) : Prop := (n <= r)%nat /\ (r < h_next hc)%nat.
+
+Lemma sep_write hc x b : sep hc -> tgt x -> (forall r, In r (refs_body b) -> frs hc r) -> sep (set_body hc x b).
+Proof.
+  intros S (Nx & Mx) R. assert (M := sep_mut hc S x true Mx). apply mut_at_get in M as (o & E & M).
+  split.
+  - eapply set_body_wf; eauto; [apply S|]. intros r Hr. now apply R.
+  - apply S.
+  - rewrite next_set_body. apply S.
+  - intros l L. rewrite (get_set_body hc x b o l E). destruct (decide (l = x)); [lia|]. now apply S.
+  - intros l o' r L. rewrite (get_set_body hc x b o l E). destruct (decide (l = x)) as [->|].
+    + intros [= <-] Hr. now apply R.
+    + apply (sep_fresh hc S). exact L.
+  - intros l m Ml. rewrite set_body_mut_at. now apply S.
+Qed.
+Lemma sep_alloc hc mut b : sep hc -> (forall r, In r (refs_body b) -> frs hc r) ->
+  (mut = false -> forall r, In r (refs_body b) -> mut_at hc r = Some false) -> (forall its, b = BList its -> mut = true) ->
+  sep (fst (alloc hc (mk mut b))).
+Proof.
+  intros S R RI BL. assert (W : wf hc) by apply S. assert (N1 := sep_n1 hc S). assert (N2 := sep_n2 hc S). split.
+  - apply alloc_wf; simpl; auto. intros r Hr. now apply R.
+  - exact N1.
+  - rewrite next_alloc. lia.
+  - intros l L. rewrite get_alloc. destruct (decide (l = h_next hc)); [lia|]. now apply S.
+  - intros l o' r L. rewrite get_alloc. destruct (decide (l = h_next hc)) as [->|].
+    + intros [= <-] Hr. now apply R.
+    + apply (sep_fresh hc S). exact L.
+  - intros l m Ml. apply (ext_mut_at ser H pyh hc _ l m W (ext_alloc _ _)). now apply S.
+Qed.
+Lemma frs_mono hc hc' r : frs hc r -> (h_next hc <= h_next hc')%nat -> frs hc' r.
+Proof. intros (A & B) L. split; lia. Qed.
+Lemma sep_ref_frs hc x o r : sep hc -> (n <= x)%nat -> get hc x = Some o -> In r (refs_body (o_body o)) -> frs hc r.
+Proof.
+  intros S Nx E Hr. split; [eapply (sep_fresh hc S); eauto|]. eapply (wf_refs ser H pyh hc (sep_wf hc S)); eauto.
+Qed.
+
+Lemma sep_upd_txin f hc x : (forall p s q, refs_body (f p s q) = [p]) -> sep hc -> tgt x -> sep (upd_txin f hc x).
+Proof.
+  intros F S T. unfold upd_txin. destruct (body_at hc x) as [[| p s q| | |]|] eqn:B; auto.
+  apply sep_write; auto. rewrite F. intros r [<-|[]].
+  unfold body_at in B. destruct (get hc x) as [o|] eqn:E; [|discriminate]. injection B as B.
+  eapply (sep_ref_frs hc x o); eauto; [apply T|]. rewrite B. simpl. auto.
+Qed.
+Lemma next_upd_txin f hc x : h_next (upd_txin f hc x) = h_next hc.
+Proof. unfold upd_txin. destruct (body_at hc x) as [[]|]; auto. apply next_set_body. Qed.
+Lemma sep_fold_upd f ins : (forall p s q, refs_body (f p s q) = [p]) -> forall hc, sep hc -> Forall tgt ins ->
+  sep (fold_left (upd_txin f) ins hc).
+Proof.
+  intros F. induction ins as [|x r IH]; intros hc S T; simpl; [exact S|].
+  inversion T as [|? ? Tx Tr]; subst. apply IH; [|exact Tr]. now apply sep_upd_txin.
+Qed.
+Lemma next_fold_upd f ins : forall hc, h_next (fold_left (upd_txin f) ins hc) = h_next hc.
+Proof. induction ins as [|x r IH]; intros hc; simpl; [reflexivity|]. now rewrite IH, next_upd_txin. Qed.
+Lemma sep_zero_seqs ins : forall hc i idx, sep hc -> Forall tgt ins -> sep (zero_seqs hc ins i idx).
+Proof.
+  induction ins as [|x r IH]; intros hc i idx S T; simpl; [exact S|].
+  inversion T as [|? ? Tx Tr]; subst. apply IH; [|exact Tr]. destruct (i =? idx)%nat; [exact S|].
+  now apply sep_upd_txin.
+Qed.
+Lemma next_zero_seqs ins : forall hc i idx, h_next (zero_seqs hc ins i idx) = h_next hc.
+Proof.
+  induction ins as [|x r IH]; intros hc i idx; simpl; [reflexivity|]. rewrite IH.
+  destruct (i =? idx)%nat; [reflexivity|apply next_upd_txin].
+Qed.
+
+Lemma sep_upd_tx f hc c : sep hc -> tgt c ->
+  (forall ver vi vo w lk r, In r (refs_body (f ver vi vo w lk)) -> In r (refs_seq vi ++ refs_seq vo) \/ frs hc r) ->
+  sep (upd_tx f hc c).
+Proof.
+  intros S T F. unfold upd_tx. destruct (body_at hc c) as [[| | |ver vi vo w lk|]|] eqn:B; auto.
+  apply sep_write; auto. intros r Hr. apply F in Hr as [Hr|Hr]; [|exact Hr].
+  unfold body_at in B. destruct (get hc c) as [o|] eqn:E; [|discriminate]. injection B as B.
+  eapply (sep_ref_frs hc c o); eauto; [apply T|]. now rewrite B.
+Qed.
+Lemma next_upd_tx f hc c : h_next (upd_tx f hc c) = h_next hc.
+Proof. unfold upd_tx. destruct (body_at hc c) as [[]|]; auto. apply next_set_body. Qed.
+
+Lemma sep_set_vout_list hc c items : sep hc -> tgt c -> (forall r, In r items -> frs hc r) -> sep (set_vout_list hc c items).
+Proof.
+  intros S T R. unfold set_vout_list. rewrite snd_alloc.
+  assert (S1 : sep (fst (alloc hc (mk true (BList items))))) by (apply sep_alloc; auto; discriminate).
+  apply sep_upd_tx; auto. intros ver vi vo w lk r. simpl. rewrite !in_app_iff. simpl.
+  intros [Hr|[<-|[]]]; [auto|]. right. pose proof (sep_n1 hc S). pose proof (sep_n2 hc S). unfold frs. simpl. lia.
+Qed.
+Lemma sep_set_vin_list hc c items : sep hc -> tgt c -> (forall r, In r items -> frs hc r) -> sep (set_vin_list hc c items).
+Proof.
+  intros S T R. unfold set_vin_list. rewrite snd_alloc.
+  assert (S1 : sep (fst (alloc hc (mk true (BList items))))) by (apply sep_alloc; auto; discriminate).
+  apply sep_upd_tx; auto. intros ver vi vo w lk r. simpl. rewrite !in_app_iff. simpl.
+  intros [<-|Hr]; [|auto]. right. pose proof (sep_n1 hc S). pose proof (sep_n2 hc S). unfold frs. simpl. lia.
+Qed.
+Lemma next_set_vout_list hc c items : h_next (set_vout_list hc c items) = S (h_next hc).
+Proof. unfold set_vout_list. now rewrite next_upd_tx. Qed.
+
+Lemma sep_blank_outs k : forall hc, sep hc ->
+  sep (fst (blank_outs hc k)) /\ (h_next hc <= h_next (fst (blank_outs hc k)))%nat /\
+  forall r, In r (snd (blank_outs hc k)) -> frs (fst (blank_outs hc k)) r.
+Proof.
+  induction k as [|k IH]; intros hc Sp; cbn [blank_outs fst snd].
+  - split; [exact Sp|]. split; [lia|]. intros r [].
+  - set (h2 := fst (alloc hc (mk false (BTxOut (-1) [])))).
+    assert (S2 : sep h2) by (apply sep_alloc; simpl; auto; [tauto|tauto|discriminate]).
+    destruct (IH h2 S2) as (S3 & N3 & R3). assert (N2 : h_next h2 = S (h_next hc)) by reflexivity.
+    split; [exact S3|]. split; [lia|]. rewrite snd_alloc. intros r [<-|Hr]; [|now apply R3].
+    split; [|lia]. pose proof (sep_n1 hc Sp). pose proof (sep_n2 hc Sp). lia.
+Qed.
+Lemma sep_ext hc : sep hc -> n = h_next h0 -> wf hc /\ ext h0 hc /\ fresh_refs n hc.
+Proof.
+  intros Sp E. split; [apply (sep_wf hc Sp)|]. split; [|apply (sep_fresh hc Sp)]. split.
+  - rewrite <- E. pose proof (sep_n1 hc Sp). pose proof (sep_n2 hc Sp). lia.
+  - intros l L. apply (sep_old hc Sp). rewrite E. exact L.
+Qed.
+End Sep.
+
+Lemma raw_sighash_ok h l script idx ht h' res : wf h -> raw_sighash ser H fad h l script idx ht = (h', res) -> wf h' /\ ext h h' /\ fresh_refs (h_next h) h'.
+Proof.
+  intros W. assert (U : wf h /\ ext h h /\ fresh_refs (h_next h) h).
+  { split; [exact W|]. split; [apply ext_refl|]. intros x o r L E. rewrite (wf_ge_none ser H pyh h x W L) in E. discriminate. }
+  unfold raw_sighash.
+  destruct (body_at h l) as [[| | |ver0 vi0 vo0 w0 lk0|]|]; try (intros [= <- <-]; exact U).
+  destruct (seq_items h vi0) as [li0|]; [|intros [= <- <-]; exact U].
+  destruct (length li0 <=? idx)%nat; [intros [= <- <-]; exact U|].
+  destruct (from_tx true h l) as [[h1 c]|] eqn:FT; [|intros [= <- <-]; exact U].
+  apply (from_tx_ok ser H pyh true (h_next h)) in FT as ((I1 & X1 & Mc & Fc) & _); [|now apply inv_start].
+  specialize (Fc eq_refl). destruct I1 as (W1 & N1 & FC1 & FR1). specialize (FR1 eq_refl).
+  assert (S1 : sep (h_next h) h h1 h1).
+  { split; auto. destruct X1 as (_ & G). exact G. }
+  assert (Tc : tgt (h_next h) h1 c) by (split; auto).
+  (* every location allocated by the copy is a legitimate target *)
+  assert (TG : forall x, (h_next h <= x)%nat -> (x < h_next h1)%nat -> tgt (h_next h) h1 x).
+  { intros x L1 L2. split; [exact L1|]. apply (wf_dom ser H pyh h1 W1) in L2 as (o & E). apply mut_at_get. exists o. split; [exact E|]. eapply FC1; eauto. }
+  assert (RF : forall x b r, (h_next h <= x)%nat -> body_at h1 x = Some b -> In r (refs_body b) -> frs (h_next h) h1 r).
+  { intros x b r L B Hr. unfold body_at in B. destruct (get h1 x) as [o|] eqn:E; [|discriminate]. injection B as <-.
+    eapply (sep_ref_frs (h_next h) h h1 h1 x o); eauto. }
+  destruct (body_at h1 c) as [[| | |ver [|lv] [|lo] w lk|]|] eqn:Bc; try (intros [= <- <-]; exact U).
+  destruct (body_at h1 lv) as [[| | | |ins]|] eqn:Bv; try (intros [= <- <-]; exact U).
+  destruct (body_at h1 lo) as [[| | | |outs]|] eqn:Bo; try (intros [= <- <-]; exact U).
+  destruct (ins !! idx) as [tin|] eqn:Ti; [|intros [= <- <-]; exact U].
+  assert (Flv : frs (h_next h) h1 lv) by (apply (RF c _ lv Fc Bc); simpl; auto).
+  assert (Flo : frs (h_next h) h1 lo) by (apply (RF c _ lo Fc Bc); simpl; auto).
+  assert (Fins : forall x, In x ins -> frs (h_next h) h1 x) by (intros x Hx; apply (RF lv _ x (proj1 Flv) Bv); exact Hx).
+  assert (Fouts : forall x, In x outs -> frs (h_next h) h1 x) by (intros x Hx; apply (RF lo _ x (proj1 Flo) Bo); exact Hx).
+  assert (Tins : Forall (tgt (h_next h) h1) ins).
+  { apply Forall_forall. intros x Hx. destruct (Fins x Hx). now apply TG. }
+  assert (Ttin : tgt (h_next h) h1 tin).
+  { apply elem_of_list_lookup_2, elem_of_list_In in Ti. destruct (Fins tin Ti). now apply TG. }
+  set (h2 := fold_left (upd_txin (fun p _ q => BTxIn p [] q)) ins h1).
+  assert (S2 : sep (h_next h) h h1 h2) by (apply sep_fold_upd; auto).
+  assert (N2 : h_next h2 = h_next h1) by apply next_fold_upd.
+  set (h3 := upd_txin (fun p _ q => BTxIn p (fad script) q) h2 tin).
+  assert (S3 : sep (h_next h) h h1 h3) by (apply sep_upd_txin; auto).
+  assert (N3 : h_next h3 = h_next h1) by (unfold h3; now rewrite next_upd_txin).
+  set (mode := Z.land ht 31).
+  match goal with |- (if snd ?r4 then _ else _) = _ -> _ => set (rr := r4);
+    assert (S4 : sep (h_next h) h h1 (fst rr) /\ (h_next h1 <= h_next (fst rr))%nat) end.
+  { unfold rr. destruct (mode =? 2).
+    - simpl. split.
+      + apply sep_zero_seqs; auto. apply sep_set_vout_list; auto. intros x [].
+      + rewrite next_zero_seqs, next_set_vout_list. lia.
+    - destruct (mode =? 3); [|simpl; split; [exact S3|lia]].
+      destruct (outs !! idx) as [tmp|] eqn:To; [|simpl; split; [exact S3|lia]].
+      destruct (sep_blank_outs (h_next h) h h1 idx h3 S3) as (Sb & Nb & Rb). simpl. split.
+      + apply sep_zero_seqs; auto. apply sep_set_vout_list; auto. intros x Hx. apply in_app_or in Hx as [Hx|[<-|[]]]; [now apply Rb|].
+        apply elem_of_list_lookup_2, elem_of_list_In in To. eapply frs_mono; [apply Fouts; exact To|lia].
+      + rewrite next_zero_seqs, next_set_vout_list. lia. }
+  destruct S4 as (S4 & N4). destruct (snd rr).
+  - intros [= <- <-]. apply (sep_ext (h_next h) h h1); auto.
+  - set (h5 := if Z.land ht 128 =? 0 then fst rr else set_vin_list (fst rr) c [tin]).
+    assert (S5 : sep (h_next h) h h1 h5).
+    { unfold h5. destruct (Z.land ht 128 =? 0); [exact S4|]. apply sep_set_vin_list; auto.
+      intros x [<-|[]]. eapply frs_mono; [apply Fins|lia]. now apply elem_of_list_lookup_2, elem_of_list_In in Ti. }
+    intros E. apply (f_equal fst) in E. cbn [fst] in E. subst h'. apply (sep_ext (h_next h) h h1); [|reflexivity]. apply sep_upd_tx; auto.
+Qed.
+
+Lemma good_ext h o h' : wf h -> wf h' -> ext h h' -> fresh_refs (h_next h) h' -> (forall l, ~ wt h o l) -> good h o h'.
+Proof.
+  intros W W' X FR NW. split; [exact W'|]. split; [|split].
+  - eapply evolves_weaken; [apply ext_evolves; exact X|]. intros l [].
+  - now apply (ext_imm_kept ser H pyh).
+  - intros l o' r E [L|Wt] Hr; [|now apply NW in Wt]. left. eapply FR; eauto.
+Qed.
+
+(* ---------- every operation ---------- *)
+Theorem step_good h o h' ob : wf h -> step h o = (h', ob) -> good h o h'.
+Proof.
+  intros W. destruct o; cbn [step].
+  - apply set_attr_good; exact W.
+  - apply del_attr_good; exact W.
+  - destruct (item_ok h out x) eqn:IO; [|unch W]. apply list_op_good; [exact W|simpl; tauto|].
+    intros items items' r [= <-] Hr. apply in_app_or in Hr as [Hr|[<-|[]]]; [auto|].
+    right. split; [simpl; auto|now apply (item_ok_lt h out)].
+  - destruct (item_ok h out x) eqn:IO; [|unch W]. apply list_op_good; [exact W|simpl; tauto|].
+    intros items items' r. destruct (py_idx (length items) i) as [k|]; [|discriminate]. simpl. intros [= <-] Hr.
+    apply list_set_in in Hr as [->|Hr]; [|auto]. right. split; [simpl; auto|now apply (item_ok_lt h out)].
+  - apply list_op_good; [exact W|simpl; tauto|].
+    intros items items' r. destruct (py_idx (length items) i) as [k|]; [|discriminate]. simpl. intros [= <-] Hr.
+    left. eapply list_del_in; eauto.
+  - apply (ret_loc_good mut); [exact W|intros l []|]. intros h1 y E.
+    apply (new_outpoint_ok ser H pyh mut (h_next h)) in E as (M & _); [exact M|now apply inv_start].
+  - apply (ret_loc_good mut); [exact W|intros l []|]. intros h1 y E.
+    apply (new_txin_ok ser H pyh mut (h_next h)) in E as (M & _); [exact M|now apply inv_start].
+  - apply (ret_loc_good mut); [exact W|intros l []|]. intros h1 y E.
+    apply (new_txout_ok ser H pyh mut (h_next h)) in E as (M & _); [exact M|now apply inv_start].
+  - apply (ret_loc_good mut); [exact W|intros l []|]. intros h1 y E.
+    apply (new_tx_ok ser H pyh mut (h_next h)) in E as (M & _); [exact M|now apply inv_start].
+  - apply (ret_loc_good mut); [exact W|intros l0 []|]. intros h1 y E.
+    apply (from_outpoint_ok ser H pyh mut (h_next h)) in E as (M & _); [exact M|now apply inv_start].
+  - apply (ret_loc_good mut); [exact W|intros l0 []|]. intros h1 y E.
+    apply (from_txin_ok ser H pyh mut (h_next h)) in E as (M & _); [exact M|now apply inv_start].
+  - apply (ret_loc_good mut); [exact W|intros l0 []|]. intros h1 y E.
+    apply (from_txout_ok ser H pyh mut (h_next h)) in E as (M & _); [exact M|now apply inv_start].
+  - apply (ret_loc_good mut); [exact W|intros l0 []|]. intros h1 y E.
+    apply (from_tx_ok ser H pyh mut (h_next h)) in E as (M & _); [exact M|now apply inv_start].
+  - unch W.
+  - apply get_hash_good; exact W.
+  - unch W.
+  - apply py_hash_good; exact W.
+  - unch W.
+  - unfold sighash_step. destruct (is_wspk script); [unch W|].
+    destruct (raw_sighash ser H fad h l script idx hashtype) as [h2 r] eqn:E. simpl. intros [= <- <-].
+    apply raw_sighash_ok in E as (W2 & X2 & F2); [|exact W]. apply good_ext; auto.
+  - unfold verify_step.
+    destruct (raw_sighash ser H fad h l script idx hashtype) as [h2 r] eqn:E. simpl. intros [= <- <-].
+    apply raw_sighash_ok in E as (W2 & X2 & F2); [|exact W]. apply good_ext; auto.
 Qed.
 End StepProofs.
